@@ -47,6 +47,7 @@ LAYOUTS = {
     "u2x1t2": [("u", 2), ("x", 1), ("t", 2)],
     "t1u1x2": [("t", 1), ("u", 1), ("x", 2)],
     "x1": [("x", 1)],
+    "a1b2c1d1": [("a", 1), ("b", 2), ("c", 1), ("d", 1)],
 }
 BATCHES = {"n": (3,), "ab": (2, 2)}
 PERMS = []
@@ -178,6 +179,10 @@ def cols_of(layout, what):
         return [names[-1], names[0]] if len(names) > 1 else [names[0]]
     if what == "tnames":
         return tuple(names[1:] + names[:1])
+    if what == "inner_swap":  # four and more variables: the outer ones stay, the inner ones are permuted
+        return [names[0]] + names[1:-1][::-1] + [names[-1]] if len(names) > 3 else list(names[::-1])
+    if what == "skip_one":  # first, last, last but one (a sub-selection that skips a variable)
+        return [names[0], names[-1], names[-2]] if len(names) > 3 else list(names[::-1])
     if what == "nslice":  # first .. last (exclusive)
         return slice(names[0], names[-1])
     if what == "nslice_open":
@@ -203,6 +208,8 @@ T_N = {
     "all,names": ([("all",)], "names"),
     "all,names2": ([("all",)], "names2"),
     "all,tnames": ([("all",)], "tnames"),
+    "all,inner_swap": ([("all",)], "inner_swap"),
+    "slice,skip_one": ([("slice", (0, N), (0, N + 1), None)], "skip_one"),
     "all,nslice": ([("all",)], "nslice"),
     "all,nslice_open": ([("all",)], "nslice_open"),
     "all,nslice_rev": ([("all",)], "nslice_rev"),
@@ -1030,6 +1037,9 @@ def cases(tier):
             cs.append(getitem_case("n", l, t, spec))
         for t, spec in QUIRK_N.items():
             cs.append(getitem_case("n", l, t, spec, quirk=True))
+    for t in ("all,inner_swap", "slice,skip_one", "all,names", "mask,names"):  # four variables
+        cs.append(getitem_case("n", "a1b2c1d1", t, T_N[t]))
+    cs.append(setitem_case("n", "a1b2c1d1", "all,inner_swap", T_N["all,inner_swap"]))
     for b in BATCHES:
         for l in lay_main:
             cs.append(iter_case(b, l))
